@@ -28,9 +28,11 @@ impl<'a> RtcpPacketParser<'a> for Sdes<'a> {
         let mut chunks = vec![];
         if data.len() > Self::MIN_PACKET_LEN {
             let mut offset = Self::MIN_PACKET_LEN;
+            // the chunks end where the (optional) trailing padding starts
+            let end_of_chunks = data.len() - parser::parse_padding(data).unwrap_or(0) as usize;
 
-            while offset < data.len() {
-                let (chunk, end) = SdesChunk::parse(&data[offset..])?;
+            while offset < end_of_chunks {
+                let (chunk, end) = SdesChunk::parse(&data[offset..end_of_chunks])?;
                 offset += end;
                 chunks.push(chunk);
             }
